@@ -367,30 +367,39 @@ func init() {
 		}
 		_, aparts := e.AppendParts(active)
 		o.Require(len(aparts) >= 1, "active-parts", "the active id list is not built by appending", nil)
-		var gsArg ssa.Value
-		var gsCall *ssa.Call
+		// (the evaluation may be written once over both result lists or once per list)
+		var gsCalls []*ssa.Call
 		for _, in := range AllInstrs(fn) {
 			if c, ok := in.(*ssa.Call); ok && calleeName(&c.Call) == "am/silence.getState" {
-				gsArg = c.Call.Args[0]
-				gsCall = c
+				gsCalls = append(gsCalls, c)
 				o.Check(e.X(fn, c.Call.Args[1]) == "(*am/silence.Silences).nowUTC(recv.silences)", "state-now", "the state of a silence must be evaluated at the silences' current time", c)
 			}
 		}
-		o.Require(gsArg != nil, "state-eval", "Mutes no longer evaluates the state of the candidate silences", nil)
+		o.Require(len(gsCalls) > 0, "state-eval", "Mutes no longer evaluates the state of the candidate silences", nil)
+		// the evaluation an append belongs to: the one that dominates it
+		evaluated := func(at ssa.Instruction) string {
+			for _, g := range gsCalls {
+				if InstrDominates(g, at) {
+					return e.X(fn, g.Call.Args[0])
+				}
+			}
+			return "?"
+		}
 		for _, p := range aparts {
 			o.Site(p.Call, "active id "+e.X(fn, p.V))
 			o.Guarded(p.Call, "active-guard", "counting a silence as muting", isState("active"))
-			o.Check(e.X(fn, p.V) == e.X(fn, gsArg)+".Id", "active-id", "the id recorded as active must be the id of the silence whose state was evaluated", p.Call)
+			o.Check(e.X(fn, p.V) == evaluated(p.Call)+".Id", "active-id", "the id recorded as active must be the id of the silence whose state was evaluated", p.Call)
 		}
 		// candidates come from both queries
-		src := e.Sources(gsArg, false)
 		has1, has2 := false, false
-		for s := range src {
-			if s == ssa.Value(idsQ.(*ssa.Call)) {
-				has1 = true
-			}
-			if s == ssa.Value(sinceQ.(*ssa.Call)) {
-				has2 = true
+		for _, g := range gsCalls {
+			for s := range e.Sources(g.Call.Args[0], false) {
+				if s == ssa.Value(idsQ.(*ssa.Call)) {
+					has1 = true
+				}
+				if s == ssa.Value(sinceQ.(*ssa.Call)) {
+					has2 = true
+				}
 			}
 		}
 		o.Check(has1, "cand-ids", "silences found by the cached-id query are not evaluated", idsQ)
@@ -427,12 +436,12 @@ func init() {
 			_, parts := e.AppendParts(allAcc)
 			var appends []ssa.Instruction
 			for _, p := range parts {
-				o.Check(e.X(fn, p.V) == e.X(fn, gsArg)+".Id", "cache-id", "a cached id is not the id of the evaluated silence", p.Call)
+				o.Check(e.X(fn, p.V) == evaluated(p.Call)+".Id", "cache-id", "a cached id is not the id of the evaluated silence", p.Call)
 				o.Guarded(p.Call, "cache-id-guard", "caching a silence id", isState("active"), isState("pending"))
 				appends = append(appends, p.Call)
 			}
 			// under each live state, every way on from the state evaluation caches the id
-			missing := func(state string) bool {
+			missingAt := func(gsCall *ssa.Call, state string) bool {
 				l := e.LoopOf(gsCall)
 				if l == nil || len(appends) == 0 {
 					return true
@@ -449,6 +458,14 @@ func init() {
 					}
 				}
 				return len(r.Returns()) > 0
+			}
+			missing := func(state string) bool {
+				for _, g := range gsCalls {
+					if missingAt(g, state) {
+						return true
+					}
+				}
+				return false
 			}
 			nAct, nPend := 1, 1
 			if missing("active") {
